@@ -36,6 +36,10 @@ class PropCheck:
     rule = ""
     level_text = ""
     uses_cli = False
+    # True: the property says "behaves as the reference semantics / model", so an input on which the implementation and the
+    # proved model disagree is itself a failing input.  False: the property is a predicate on the implementation alone (the
+    # direct oracle); a disagreement then only breaks the correspondence and is reported as no-failing-input-found.
+    mismatch_is_failure = True
 
     # --- to override
     def run_impl(self, cases):
@@ -111,7 +115,7 @@ def evaluate(prop, cases):
             expr, exp = "(excluded_obs %s [%s])" % (C.coq_text(c.src), files), "EXCLUDED"
             if not prop.model_available:
                 exp = None
-        recs.append({"case": c, "impl": r, "oracle": why, "expected": exp, "mismatch": False, "model": None})
+        recs.append({"case": c, "impl": r, "oracle": why, "expected": exp, "mismatch": False, "model": None, "overflow": expr is not None})
         if exp is not None:
             items.append((expr or prop.model_expr(c), exp))
             idx.append(i)
@@ -121,6 +125,9 @@ def evaluate(prop, cases):
         for m in mism:
             recs[idx[m]]["mismatch"] = True
             recs[idx[m]]["model"] = observed.get(m)
+            if recs[idx[m]]["overflow"] and recs[idx[m]]["oracle"] is None:
+                recs[idx[m]]["oracle"] = ("the process aborted (native stack overflow) on a program outside the excluded classes: "
+                                          "the model run neither exhausts its fuel nor ends with a self-containing list")
     return recs, vm
 
 
@@ -172,7 +179,7 @@ def run_check(prop, tier, seed, replay=None):
 
     chk = None
     if tier == "thorough" and not broken and not replay:
-        chk = C.coqchk(prop.id)
+        chk = C.coqchk(prop.id, modules=getattr(prop, 'audit_modules', None))
         if not chk.get("ok"):
             broken.append("coqchk rejected the compiled development: %s" % chk)
         else:
@@ -216,6 +223,10 @@ def run_check(prop, tier, seed, replay=None):
 
     violations = 0
     nrep = 0
+    corr_only = []
+    if not prop.mismatch_is_failure:
+        corr_only = [r for r in unknown if r["oracle"] is None]
+        unknown = [r for r in unknown if r["oracle"] is not None]
     for r in unknown[:3]:
         r = shrink(prop, r)
         c = r["case"]
@@ -232,6 +243,22 @@ def run_check(prop, tier, seed, replay=None):
         payload.update({"property": prop.id, "what": why, "broken_obligations": broken})
         path = C.write_replay(prop.id, seed, nrep, payload)
         print("VIOLATION property=%s replay=%s" % (prop.id, path), flush=True)
+        nrep += 1
+        violations += 1
+    if not violations and corr_only:
+        r = shrink(prop, corr_only[0])
+        c = r["case"]
+        path = C.write_replay(prop.id, seed, nrep, {
+            "property": prop.id,
+            "what": "the correspondence between the model the theorems are about and the implementation no longer checks "
+                    "(%d of %d inputs disagree); the property's direct oracle found no input on which the property itself fails"
+                    % (len(corr_only), len(recs)),
+            "broken_correspondence": "channel %s (%s): model expression %s" % (prop.harness_mode, prop.id, ", ".join(prop.coq_imports)),
+            "disagreeing_input": c.src, "modules": c.mods, "meta": c.meta, "input": c.src,
+            "implementation": r["impl"], "model_expected_form": r["expected"], "model": r["model"],
+            "broken_obligations": broken,
+            "how_to_replay": "./check %s --replay <this file>" % prop.id})
+        print("VIOLATION property=%s replay=%s no-failing-input-found" % (prop.id, path), flush=True)
         nrep += 1
         violations += 1
     if not violations and broken:
